@@ -602,6 +602,56 @@ def generate(repo):
         if isinstance(n, ast.ClassDef) and n.name.startswith('DetailProp'):
             bases[n.name] = [ast.unparse(b) for b in n.bases]
 
+    # ParsedLump.__set__ / __set_name__ and the `_lmp_check_*` assignment hooks: the assigned value must be stored as it
+    # is (a one-shot iterable is a legal value for the writers that iterate their argument once)
+    pl = next((n for n in tree.body if isinstance(n, ast.ClassDef) and n.name == 'ParsedLump'), None)
+    if pl is None:
+        raise ExtractError('class ParsedLump not found')
+    pset = next((n for n in pl.body if isinstance(n, ast.FunctionDef) and n.name == '__set__'), None)
+    psetname = next((n for n in pl.body if isinstance(n, ast.FunctionDef) and n.name == '__set_name__'), None)
+    if pset is None or psetname is None or len(pset.args.args) != 3:
+        raise ExtractError('ParsedLump.__set__/__set_name__ not found')
+    if "getattr(owner, '_lmp_check_' + func_suffix, None)" not in ast.unparse(psetname):
+        raise ExtractError('ParsedLump.__set_name__: the check-hook lookup is not recognised')
+    vname = pset.args.args[2].arg
+    uses_ok, n_store = True, 0
+    parents = {}
+    for n in ast.walk(pset):
+        for c in ast.iter_child_nodes(n):
+            parents[id(c)] = n
+    for n in ast.walk(pset):
+        if isinstance(n, ast.Name) and n.id == vname:
+            par = parents.get(id(n))
+            if isinstance(par, ast.Call) and ast.unparse(par.func) == 'self._check' and n in par.args:
+                continue
+            if isinstance(par, ast.Assign) and par.value is n and len(par.targets) == 1 \
+                    and ast.unparse(par.targets[0]) == 'instance._parsed_lumps[self.lump]':
+                n_store += 1
+                continue
+            uses_ok = False
+    set_untouched = uses_ok and n_store == 1
+    CONSUMERS = {'list', 'tuple', 'sorted', 'len', 'iter', 'next', 'any', 'all', 'set', 'frozenset', 'sum', 'enumerate', 'zip',
+                 'map', 'filter', 'min', 'max', 'reversed', 'dict'}
+    hooks = []
+    for fn_ in bsp.body:
+        if isinstance(fn_, ast.FunctionDef) and fn_.name.startswith('_lmp_check_'):
+            if len(fn_.args.args) < 2:
+                raise ExtractError(f'{fn_.name}: unexpected signature')
+            pn = fn_.args.args[1].arg
+            consumes = False
+            for n in ast.walk(fn_):
+                if isinstance(n, (ast.For, ast.AsyncFor, ast.comprehension)) and any(
+                        isinstance(m, ast.Name) and m.id == pn for m in ast.walk(n.iter)):
+                    consumes = True
+                if isinstance(n, ast.Call) and isinstance(n.func, ast.Name) and n.func.id in CONSUMERS and any(
+                        isinstance(m, ast.Name) and m.id == pn for a_ in n.args for m in ast.walk(a_)):
+                    consumes = True
+                if isinstance(n, ast.Starred) and isinstance(n.value, ast.Name) and n.value.id == pn:
+                    consumes = True
+                if isinstance(n, ast.Subscript) and isinstance(n.value, ast.Name) and n.value.id == pn:
+                    consumes = True
+            hooks.append((fn_.name, consumes))
+
     L = []
     A = L.append
     A('import Srctools.Model.C11')
@@ -665,6 +715,11 @@ def generate(repo):
     A('def detailIsinstanceOrder : List String := [' + ', '.join(lean_string(c) for c in order) + ']')
     A('def detailBases : List (String × List String) := [' + ', '.join(
         f'({lean_string(c)}, [' + ', '.join(lean_string(b) for b in bs) + '])' for c, bs in sorted(bases.items())) + ']')
+    A('')
+    A('/-- `ParsedLump.__set__` only hands the assigned value to the check hook and stores it (never iterates it) -/')
+    A(f'def setStoresValueUntouched : Bool := {"true" if set_untouched else "false"}')
+    A('/-- the `_lmp_check_<view>` assignment hooks of BSP: (name, iterates / indexes / measures its argument) -/')
+    A('def assignmentHooks : List (String × Bool) := [' + ', '.join(f'({lean_string(n)}, {"true" if c else "false"})' for n, c in hooks) + ']')
     A('')
     A('/-- every struct site found in the lump functions: (function, line, kind, format source) -/')
     A('def allSites : List (String × Nat × String × String) := [')
